@@ -1,5 +1,5 @@
 """Named monitor sets (so that a replay file can rebuild exactly the monitors that produced it)."""
-from harness.monitors import MLife, MCarry, MDrain, MEscape, MHist, MViews, MFail, MRef, MJoin, MCrash, MTime
+from harness.monitors import MLife, MCarry, MDrain, MEscape, MHist, MViews, MFail, MRef, MJoin, MCrash, MTime, MChild
 
 def base(scenario):
     life = MLife()
@@ -17,7 +17,11 @@ def timing(scenario):
     life = MLife()
     return [life, MEscape(), MRef(scenario), MTime(scenario), MCrash(scenario)]
 
-SETS = {"base": base, "full": full, "crash": crash, "timing": timing}
+def child(scenario):
+    life = MLife()
+    return [life, MCarry(), MDrain(life), MEscape(), MChild(scenario)]
+
+SETS = {"base": base, "full": full, "crash": crash, "timing": timing, "child": child}
 
 def get(name):
     return SETS[name]
